@@ -2,6 +2,7 @@ package main
 
 import (
 	"fmt"
+	"strings"
 
 	"verif/internal/prng"
 	"verif/internal/sim"
@@ -317,6 +318,51 @@ func corpus() []corpusEntry {
 				return sc
 			})
 		}
+	}
+	// the same id named twice in object / target (once as an IRI, once as an
+	// embedded value where the activity allows both): legal input, and the
+	// per-id locking of every side effect must cope with it
+	for _, e := range base {
+		e := e
+		if !strings.HasPrefix(e.Name, "inbox.") && !strings.HasPrefix(e.Name, "outbox.") {
+			continue
+		}
+		if strings.Contains(e.Name, "forwarding") || strings.Contains(e.Name, "duplicate") {
+			continue
+		}
+		add(e.Name+".repeated-values", func(g *prng.R) *sim.Scenario {
+			sc := e.Build(g)
+			body, ok := sc.Requests[0].Body.(M)
+			if !ok {
+				return sc
+			}
+			var b M
+			mustRoundTrip(body, &b)
+			for _, k := range []string{"object", "target"} {
+				vals := asList(b[k])
+				if len(vals) == 0 {
+					continue
+				}
+				first := vals[0]
+				id, ok := idOfValue(first)
+				if !ok {
+					continue
+				}
+				var twin interface{} = id
+				if _, isIRI := first.(string); isIRI && k == "object" && (b["type"] == "Delete" || b["type"] == "Like" || b["type"] == "Announce" || b["type"] == "Add" || b["type"] == "Remove") {
+					twin = M{"type": "Note", "id": id}
+				}
+				out := append(A{}, vals...)
+				if len(vals) > 1 && g.Bool() {
+					out = append(out, twin) // another value in between
+				} else {
+					out = append(A{first, twin}, vals[1:]...)
+				}
+				b[k] = out
+			}
+			sc.Requests[0].Body = b
+			return sc
+		})
 	}
 	// a client that goes away while the body is being read
 	for _, n := range []int{0, 1, 40} {
